@@ -169,9 +169,14 @@ theorem C05_stanza_attrs (cfg : Cfg) (fresh : String) (n : Name) (as : List Attr
     · split <;> simp [notXmlns, fromAttr]
   · split <;> simp [notXmlns, idAttr]
 
-/-- every outgoing stanza carries the content namespace (or the one the caller chose among the
-two stanza namespaces) -/
-theorem C05_stanza_ns (cfg : Cfg) (fresh : String) (n : Name) (as : List Attr)
+/-- FULL statement of the clause "every outgoing stanza carries the stream's content namespace":
+`(fillNs cfg n).space = cfg.ns` for every name the encoder treats as a stanza.  That is FALSE
+(`C05_stanza_ns_fails`): a name that already carries the OTHER stanza namespace is treated as a
+stanza (id / from are stamped) and keeps its namespace.  Proved here (partial): the namespace is
+the stream's or one of the two stanza namespaces, the local name is kept.  Full strength under
+the hypothesis that the caller did not name the other namespace: `C05_stanza_ns_stream`.
+(round E, review A-2; the statement used to carry the unqualified name) -/
+theorem C05_stanza_ns_partial (cfg : Cfg) (fresh : String) (n : Name) (as : List Attr)
     (hs : isStanzaEmptySpace n = true) :
     tokName (encStart cfg fresh 1 n as) = some (fillNs cfg n) ∧
     ((fillNs cfg n).space = cfg.ns ∨ (fillNs cfg n).space = nsClient ∨ (fillNs cfg n).space = nsServer) ∧
@@ -186,6 +191,31 @@ theorem C05_stanza_ns (cfg : Cfg) (fresh : String) (n : Name) (as : List Attr)
     · right; left; exact h1
     · right; right; exact h1
     · simp [h1] at h
+
+/-- **the stream's content namespace**: a stanza whose name carries no namespace or the stream's
+own goes out in the stream's content namespace -/
+theorem C05_stanza_ns_stream (cfg : Cfg) (fresh : String) (n : Name) (as : List Attr)
+    (hs : isStanzaEmptySpace n = true) (hn : n.space = "" ∨ n.space = cfg.ns) :
+    tokName (encStart cfg fresh 1 n as) = some ⟨cfg.ns, n.loc⟩ := by
+  simp only [encStart, hs, tokName, Bool.and_true, BEq.rfl, if_true, Option.some.injEq]
+  unfold fillNs
+  rcases hn with h | h
+  · simp [h]
+  · split
+    · rfl
+    · obtain ⟨sp, lo⟩ := n; simp_all
+
+/-- negation witness of the full clause (known finding `stream-namespace / other-stanza-namespace`):
+on a `jabber:client` stream `{jabber:server}message` is completed like a stanza (an id is
+generated) and goes out in `jabber:server` -/
+theorem C05_stanza_ns_fails :
+    let t := encStart ⟨nsClient, ""⟩ "ID#" 1 ⟨nsServer, "message"⟩ []
+    tokName t = some ⟨nsServer, "message"⟩ ∧ (∃ a ∈ startAttrs t, a.name = ⟨"", "id"⟩ ∧ a.value = "ID#") ∧
+    ¬ (∀ (cfg : Cfg) (n : Name), isStanzaEmptySpace n = true → (fillNs cfg n).space = cfg.ns) := by
+  refine ⟨by decide, by decide, fun h => ?_⟩
+  have := h ⟨nsClient, ""⟩ ⟨nsServer, "message"⟩ (by decide)
+  revert this
+  decide
 
 theorem isPlain_iff (a : Attr) (l : String) : isPlain a l = true ↔ a.name = ⟨"", l⟩ := by
   obtain ⟨⟨sp, lo⟩, v⟩ := a
